@@ -176,6 +176,75 @@ pub fn decode(d: &mut crate::dec::Dec) -> Case {
     Case { spec, seqs, j1: d.range(0, 39), j2: d.range(0, 39) }
 }
 
+// --- scale invariance (behaviour at large values) ----------------------------------------
+
+#[derive(Clone, Debug, Serialize, Deserialize)]
+pub struct ScaleCase {
+    pub spec: ArrSpec,
+    pub factor: u64,
+    pub deltas: Vec<u64>,
+}
+
+fn scale_strategy(tier: Tier) -> BoxedStrategy<ScaleCase> {
+    let g = ArrGen { tmax: tier.pick(30, 60), never: true, plateau_end: true, plain_curves: true, derived: true, acp: true, loose: true, poisson: false, depth: 2 };
+    (
+        arr_strategy(g),
+        proptest::sample::select(vec![1_000u64, 65_537, 10_000_000, 4_294_967_311]),
+        proptest::collection::vec(0u64..400, 1..12),
+    )
+        .prop_map(|(spec, factor, deltas)| ScaleCase { spec, factor, deltas })
+        .boxed()
+}
+
+/// Multiplying every time parameter of a model by s must leave the bound unchanged at s-multiples:
+/// eta_s(s * delta) = eta(delta), and the k-th step moves from x to s * (x - 1) + 1.
+fn check_scale(c: &ScaleCase) -> CheckResult {
+    let mut out = Outcome::default();
+    let mut big = c.spec.clone();
+    crate::ros::stretch(&mut big, c.factor);
+    let (a, b) = match guard(|| (c.spec.build(), big.build())) {
+        Ok(x) => x,
+        Err(_) => {
+            out.label("construction-failed(skipped)");
+            return Ok(out);
+        }
+    };
+    let direct_acp = c.spec.exposes_direct_acp();
+    for &x in &c.deltas {
+        let r = guard(|| (a.number_arrivals(d(x)), b.number_arrivals(d(x * c.factor))));
+        let (small, large) = match r {
+            Ok(v) => v,
+            Err(e) => return Err(format!("number_arrivals panicked: {} (delta {} / {})", e, x, x * c.factor)),
+        };
+        if small != large {
+            return Err(format!(
+                "all time parameters multiplied by {}: number_arrivals({}) = {} but the unscaled model gives number_arrivals({}) = {}",
+                c.factor,
+                x * c.factor,
+                large,
+                x,
+                small
+            ));
+        }
+        out.inner += 1;
+    }
+    let k = 12;
+    let r = guard(|| {
+        (
+            a.steps_iter().take(k).map(crate::supply_ref::du).collect::<Vec<u64>>(),
+            b.steps_iter().take(k).map(crate::supply_ref::du).collect::<Vec<u64>>(),
+        )
+    });
+    let (ss, sl) = r.map_err(|e| format!("steps_iter panicked: {}", e))?;
+    let expect: Vec<u64> = ss.iter().map(|x| if *x == 0 { 0 } else { (x - 1) * c.factor + 1 }).collect();
+    if sl != expect && !(direct_acp && ss.first() == Some(&0)) {
+        return Err(format!("all time parameters multiplied by {}: steps {:?} but the unscaled steps {:?} map to {:?}", c.factor, &sl[..sl.len().min(6)], &ss[..ss.len().min(6)], &expect[..expect.len().min(6)]));
+    }
+    out.nontrivial = c.factor >= 10_000_000 && (c.spec.has_jitter() || c.spec.has_burst() || c.spec.depth() >= 1);
+    out.label_if(c.factor > u32::MAX as u64, "factor>2^32");
+    Ok(out)
+}
+
 /// exhaustive stage over a tiny parameter grid (same models as C11's exhaustive stage)
 fn exhaustive(tier: Tier, _seed: u64) -> ExtraResult {
     let mut r = ExtraResult { exhaustive: true, replay_subcheck: "sequences", ..Default::default() };
@@ -279,12 +348,15 @@ fn exhaustive(tier: Tier, _seed: u64) -> ExtraResult {
 pub fn def() -> PropertyDef {
     PropertyDef {
         id: "C10",
-        rule: "generated: nested arrival specs (Periodic, Sporadic with jitter up to 4T, plain and extrapolating delta-min curves incl. bursts, plateaus and non-super-additive prefixes, Never, clone_with_jitter, Propagated, sum_of, Vec, boxed slice; depth <= 3) and, per case, the densest sequence plus 1-4 generated admissible event sequences (slack and per-event jitter decisions are a generated vector); oracle: max number of events in any window of every length delta <= horizon (window counting over the sequence, independent of number_arrivals) <= number_arrivals(delta); number_arrivals(0)=0 and monotone; Periodic/Sporadic attained by the densest sequence and sub-additive; jitter a then b == jitter a+b pointwise, and the twice-jittered model bounds twice-delayed sequences. Non-trivial: some sequence has >= 3 events in a checked window and the model has jitter, a burst or nesting; distinct by case JSON.".into(),
+        rule: "generated: nested arrival specs (Periodic, Sporadic with jitter up to 4T, plain and extrapolating delta-min curves incl. bursts, plateaus and non-super-additive prefixes, Never, clone_with_jitter, Propagated, sum_of, Vec, boxed slice; depth <= 3) and, per case, the densest sequence plus 1-4 generated admissible event sequences (slack and per-event jitter decisions are a generated vector); oracle: max number of events in any window of every length delta <= horizon (window counting over the sequence, independent of number_arrivals) <= number_arrivals(delta); number_arrivals(0)=0 and monotone; Periodic/Sporadic attained by the densest sequence and sub-additive; jitter a then b == jitter a+b pointwise, and the twice-jittered model bounds twice-delayed sequences. Second sub-check (large values): every time parameter of a generated model (incl. derived curves and prefixes) multiplied by 10^3 / 65537 / 10^7 / 2^32+15: number_arrivals at s-multiples and the first 12 steps must be the images of the unscaled ones. Non-trivial: some sequence has >= 3 events in a checked window and the model has jitter, a burst or nesting; distinct by case JSON.".into(),
         assumptions: vec![
             "delta-min prefixes are non-empty, non-decreasing and end with a positive distance (an all-zero prefix denotes an unbounded burst)".into(),
             "Periodic means exactly periodic releases with an arbitrary phase".into(),
         ],
-        subchecks: vec![subcheck("sequences", (12_000, 200_000), strategy, check).with_decoder(decode, check)],
+        subchecks: vec![
+            subcheck("sequences", (12_000, 200_000), strategy, check).with_decoder(decode, check),
+            subcheck("scale-invariance", (4000, 100_000), scale_strategy, check_scale),
+        ],
         extra: Some(Box::new(exhaustive)),
     }
 }
